@@ -1,0 +1,89 @@
+//go:build verif
+
+package dhcpv6
+
+import (
+	"net"
+	"sort"
+	"time"
+)
+
+// Verification seams for property C02 (DHCP binding monitor in /verif): exported
+// wrappers around unexported functions / fields and read-only copies of
+// unexported state. No behaviour of their own.
+
+// VerifC02HandleMessage calls the real message dispatcher (what receiveLoop does after ParseMessage).
+func (s *Server) VerifC02HandleMessage(msg *Message, addr *net.UDPAddr) { s.handleMessage(msg, addr) }
+
+// VerifC02SetConn installs the UDP socket replies are written to (what Start does after ListenUDP).
+func (s *Server) VerifC02SetConn(conn *net.UDPConn) { s.conn = conn }
+
+// VerifC02ServerDUID returns the serialized server DUID.
+func (s *Server) VerifC02ServerDUID() []byte { return s.serverDUID.Serialize() }
+
+// VerifC02Lease is a copy of one lease-table entry.
+type VerifC02Lease struct {
+	DUID         string // map key (raw client-id bytes)
+	IAID         uint32
+	Address      net.IP // nil if none
+	Prefix       string // CIDR, "" if none
+	PreferredEnd time.Time
+	ValidEnd     time.Time
+}
+
+// VerifC02Leases returns a copy of the lease table, sorted by DUID.
+func (s *Server) VerifC02Leases() []VerifC02Lease {
+	s.leasesMu.RLock()
+	out := make([]VerifC02Lease, 0, len(s.leases))
+	for k, l := range s.leases {
+		c := VerifC02Lease{DUID: k, IAID: l.IAID, PreferredEnd: l.PreferredEnd, ValidEnd: l.ValidEnd}
+		if l.Address != nil {
+			c.Address = append(net.IP(nil), l.Address...)
+		}
+		if l.Prefix != nil {
+			c.Prefix = l.Prefix.String()
+		}
+		out = append(out, c)
+	}
+	s.leasesMu.RUnlock()
+	sort.Slice(out, func(i, j int) bool { return out[i].DUID < out[j].DUID })
+	return out
+}
+
+// VerifC02PoolSnapshot is a copy of the legacy pools' allocation state.
+type VerifC02PoolSnapshot struct {
+	HasAddrPool     bool
+	AddrAllocated   map[string]net.IP // DUID -> address
+	AddrAvailable   []net.IP          // in list order
+	HasPrefixPool   bool
+	PrefixAllocated map[string]string // DUID -> CIDR
+	PrefixAvailable []string          // in list order
+}
+
+// VerifC02Pools copies the legacy address / prefix pools under their own mutexes.
+func (s *Server) VerifC02Pools() VerifC02PoolSnapshot {
+	snap := VerifC02PoolSnapshot{AddrAllocated: map[string]net.IP{}, PrefixAllocated: map[string]string{}}
+	if p := s.addressPool; p != nil {
+		snap.HasAddrPool = true
+		p.mu.Lock()
+		for d, ip := range p.allocated {
+			snap.AddrAllocated[d] = append(net.IP(nil), ip...)
+		}
+		for _, ip := range p.available {
+			snap.AddrAvailable = append(snap.AddrAvailable, append(net.IP(nil), ip...))
+		}
+		p.mu.Unlock()
+	}
+	if p := s.prefixPool; p != nil {
+		snap.HasPrefixPool = true
+		p.mu.Lock()
+		for d, pf := range p.allocated {
+			snap.PrefixAllocated[d] = pf.String()
+		}
+		for _, pf := range p.available {
+			snap.PrefixAvailable = append(snap.PrefixAvailable, pf.String())
+		}
+		p.mu.Unlock()
+	}
+	return snap
+}
